@@ -20,7 +20,10 @@ prop(
          "second counts that do not divide 2h; 1-4 series whose label sets have DIFFERENT label names (subsets of {instance, job, cluster, __name__}, including "
          "sets contained in one another), listed in a drawn per-slice order in each response, with presence bitmaps made of runs of length 1,2,3, slice-1, slice, slice+1, "
          "2*slice or arbitrary, plus drawn 6-bit patterns written over every predicted slice boundary (islands, holes, runs ending/starting "
-         "on the boundary); arrival order = drawn permutation. The real FailoverGroup.RangeQuery runs against a fake query_range that answers "
+         "on the boundary); arrival order = drawn permutation. In a quarter of the cases every series is confined to the interior of ONE "
+         "slice (1-3 short islands: nothing continues across a boundary, no two ranges of the result can merge). The http layer then asks the SAME "
+         "client again (cache alive) 0-2 times - the same window (always for confined cases) or one shifted by 1-3 steps or a whole slice - with "
+         "per-slice drawn response delays; every answer is judged by the same unsliced oracle for its own window. The real FailoverGroup.RangeQuery runs against a fake query_range that answers "
          "each slice from the bitmap and logs (start,end,step). Non-trivial: the request log shows >=2 slices and, at some slice boundary, some "
          "series has a run crossing it, a run ending/starting exactly on it, or a one-sample hole/island adjacent to it. Classes: "
          "layer : start on/off the 2h grid : step divides 2h or not : #slices bucket : boundary relations present.",
@@ -33,6 +36,8 @@ prop(
                "are outside the stated domain and not generated. Out-of-domain observation (documented, not judged): for step > 4h with a window "
                "longer than one step, (2h).Round(step) is 0 and sliceRange never advances - RangeQuery does not return and keeps allocating "
                "(promql/series lookbackStep and alerts/count step are user-configurable). Whole-second timestamps only. "
+               "The stated non-trivial rule (a run crossing/touching a boundary) does not count the confined cases, which are there for the cache-aliasing "
+               "class of defects; that is why the non-trivial share is ~43% since they were added. "
                "Known finding C13-K1 (class range-before-requested-start): the reference model covers only grid points start <= t <= end (the grid "
                "phase comes from the request log); pint's output is compared as is and, if that fails, once more with everything stemming from grid "
                "points before start cut off. Only a case whose sole disagreement is pre-start presence and whose bitmap has a sample on a requested "
